@@ -81,6 +81,9 @@ type pegPair struct {
 	coinSupply *big.Int
 	tokSupply  *big.Int
 	burned     *big.Int // tokens destroyed by their holders (coin-origin: escrow stays)
+	// ERC20-origin pairs: the voucher their coin becomes on channel end B (not a registered pair)
+	vdenom string
+	vch    map[common.Address]*big.Int
 }
 
 func (p *pegPair) coinOrigin() bool { return p.kind == kCoin || p.kind == kVoucher }
@@ -301,6 +304,9 @@ func (e *pegEnv) registerToken(kind string, addr common.Address, pre map[common.
 		return
 	}
 	p := e.newPair(kind, pair.Denom, addr)
+	if e.lb != nil {
+		p.vdenom = transfertypes.ParseDenomTrace("transfer/" + e.lb.B + "/" + pair.Denom).IBCDenom()
+	}
 	if pre != nil {
 		for a, v := range pre {
 			p.tok[a] = new(big.Int).Set(v)
@@ -323,7 +329,7 @@ func (e *pegEnv) registerToken(kind string, addr common.Address, pre map[common.
 
 func (e *pegEnv) newPair(kind, denom string, token common.Address) *pegPair {
 	p := &pegPair{kind: kind, denom: denom, token: token, enabled: true, coin: map[common.Address]*big.Int{}, tok: map[common.Address]*big.Int{},
-		allow: map[common.Address]*big.Int{}, coinSupply: new(big.Int), tokSupply: new(big.Int), burned: new(big.Int)}
+		allow: map[common.Address]*big.Int{}, vch: map[common.Address]*big.Int{}, coinSupply: new(big.Int), tokSupply: new(big.Int), burned: new(big.Int)}
 	e.pairs = append(e.pairs, p)
 	e.track(token, "token:"+kind)
 	return p
@@ -526,7 +532,7 @@ func (e *pegEnv) convertERC20(p *pegPair, a, recv common.Address, x *big.Int) er
 
 // snapshot / restore of the ledger (an operation the chain rejected has no effect)
 type pegSnap struct {
-	coin, tok, allow             map[common.Address]*big.Int
+	coin, tok, allow, vch        map[common.Address]*big.Int
 	coinSupply, tokSupply, burnt *big.Int
 }
 
@@ -539,10 +545,10 @@ func cpMap(m map[common.Address]*big.Int) map[common.Address]*big.Int {
 }
 
 func (p *pegPair) save() pegSnap {
-	return pegSnap{cpMap(p.coin), cpMap(p.tok), cpMap(p.allow), new(big.Int).Set(p.coinSupply), new(big.Int).Set(p.tokSupply), new(big.Int).Set(p.burned)}
+	return pegSnap{cpMap(p.coin), cpMap(p.tok), cpMap(p.allow), cpMap(p.vch), new(big.Int).Set(p.coinSupply), new(big.Int).Set(p.tokSupply), new(big.Int).Set(p.burned)}
 }
 func (p *pegPair) restore(s pegSnap) {
-	p.coin, p.tok, p.allow, p.coinSupply, p.tokSupply, p.burned = s.coin, s.tok, s.allow, s.coinSupply, s.tokSupply, s.burnt
+	p.coin, p.tok, p.allow, p.vch, p.coinSupply, p.tokSupply, p.burned = s.coin, s.tok, s.allow, s.vch, s.coinSupply, s.tokSupply, s.burnt
 }
 
 // ---- the monitor --------------------------------------------------------------------------
@@ -564,6 +570,18 @@ func (e *pegEnv) check(op string, touched *pegPair) {
 			continue
 		}
 		e.r.Eval(1)
+		if p.vdenom != "" {
+			for _, a := range e.who {
+				got := e.n.App.BankKeeper.GetBalance(e.n.Ctx(), sdk.AccAddress(a.Bytes()), p.vdenom).Amount.BigInt()
+				if want := e.get(p.vch, a); got.Cmp(want) != 0 {
+					e.violation(p, op, "ledger:voucher-balance", fmt.Sprintf("after %s: %s holds %s of the voucher of %s on the other channel end, ledger %s", op, e.names[a], got, p.denom, want))
+					break
+				}
+			}
+			if p.broken {
+				continue
+			}
+		}
 		if p.dead || p.gone {
 			// no contract: the coin side must stay as the ledger says (nothing minted or released)
 			for _, a := range e.who {
@@ -724,6 +742,9 @@ func (e *pegEnv) step() {
 	n := e.n
 	a := e.acc()
 	k := e.rng.Intn(100)
+	if e.follow == nil && e.lb != nil && e.rng.Intn(6) == 0 && e.roundTrip() {
+		return
+	}
 	if e.follow != nil && !e.follow.broken {
 		// right after a switch was thrown: conversion attempts on the pair concerned, over every path
 		p = e.follow
@@ -1098,6 +1119,7 @@ type pegPacket struct {
 	x        *big.Int
 	pkt      channeltypes.Packet
 	onB      bool // sent on end B (a voucher going home); otherwise on end A
+	ret      bool // sent on end B: the unregistered voucher of the ERC20-origin pair p going home
 	timeout  bool
 	received bool
 	ack      []byte
@@ -1118,6 +1140,11 @@ func (e *pegEnv) pairOfKind(kind string) *pegPair {
 // refund: the ledger effect of a timeout or an error acknowledgement on the sending end.
 func (e *pegEnv) refund(pk *pegPacket) error {
 	p := pk.p
+	if pk.ret {
+		// minted again on end B; the voucher is no registered pair, nothing is converted
+		p.vch[pk.from] = new(big.Int).Add(e.get(p.vch, pk.from), pk.x)
+		return nil
+	}
 	if pk.onB {
 		p.coinSupply.Add(p.coinSupply, pk.x) // the voucher is minted again
 	} else {
@@ -1153,12 +1180,38 @@ func (e *pegEnv) ibc(p *pegPair, a vn.Account) {
 	k := e.rng.Intn(10)
 	switch {
 	case k < 4 || (len(pend) == 0 && len(recvd) == 0): // send
+		e.ibcSend(p)
+	case k < 7 && len(pend) > 0: // the relayer delivers a packet
+		e.ibcRecv(pend[e.rng.Intn(len(pend))])
+	case k < 9 && len(recvd) > 0: // the acknowledgement comes back
+		e.ibcAck(recvd[e.rng.Intn(len(recvd))])
+	default: // a packet that was never delivered times out
+		var cands []*pegPacket
+		for _, pk := range pend {
+			if pk.timeout && uint64(n.Time.UnixNano()) >= pk.pkt.TimeoutTimestamp {
+				cands = append(cands, pk)
+			}
+		}
+		if len(cands) == 0 {
+			return
+		}
+		e.ibcTimeout(cands[e.rng.Intn(len(cands))])
+	}
+}
+
+func (e *pegEnv) ibcSend(p *pegPair) {
+	n := e.n
+	{
+		if p.vdenom != "" && e.rng.Intn(2) == 0 && anyPositive(p.vch) {
+			e.ibcReturn(p)
+			return
+		}
 		onB := p.kind == kVoucher
 		ch := e.lb.A
 		if onB {
 			ch = e.lb.B
 		}
-		a = e.holder(p.coin)
+		a := e.holder(p.coin)
 		if e.rng.Intn(3) == 0 {
 			a = e.holder(p.tok) // the transfer keeper converts tokens first when coins are short
 		}
@@ -1206,8 +1259,12 @@ func (e *pegEnv) ibc(p *pegPair, a vn.Account) {
 			pk.pkt = pkt
 			e.flight = append(e.flight, pk)
 		}
-	case k < 7 && len(pend) > 0: // the relayer delivers a packet
-		pk := pend[e.rng.Intn(len(pend))]
+	}
+}
+
+func (e *pegEnv) ibcRecv(pk *pegPacket) {
+	n := e.n
+	{
 		e.logOp("%s: IBC receive of packet %d (%s from %s)", pk.p.kind, pk.pkt.Sequence, pk.x, e.names[pk.from])
 		res, ack := e.lb.Recv(pk.pkt)
 		e.lastLog = res.Log
@@ -1218,12 +1275,29 @@ func (e *pegEnv) ibc(p *pegPair, a vn.Account) {
 		if pk.onB {
 			opn = "ibc-recv-voucher-returns-home"
 		}
+		if pk.ret {
+			opn = "ibc-recv-erc20-origin-denom-returns-home"
+		}
 		e.settle(pk.p, opn, res.Code == 0 && ackOK(ack), func() error {
 			if pk.badRecv {
 				return opErr("receiver is not an address")
 			}
 			if pk.timeout && uint64(n.Time.UnixNano()) >= pk.pkt.TimeoutTimestamp {
 				return opErr("packet timed out")
+			}
+			if pk.ret {
+				// released from the channel escrow to the receiver, then the middleware converts the
+				// receiver's whole balance; a conversion that fails makes the whole receive fail
+				p := pk.p
+				if e.get(p.coin, e.escrow).Cmp(pk.x) < 0 {
+					return opErr("channel escrow too small")
+				}
+				p.coin[e.escrow] = new(big.Int).Sub(e.get(p.coin, e.escrow), pk.x)
+				p.coin[pk.to] = new(big.Int).Add(e.get(p.coin, pk.to), pk.x)
+				if !e.erc20On || p.gone || !p.enabled || p.dead {
+					return nil // passes through (a destroyed token: the pair is deleted, nothing converted)
+				}
+				return e.convertCoin(p, pk.to, pk.to, new(big.Int).Set(e.get(p.coin, pk.to)))
 			}
 			var q *pegPair // the pair of the denom the receiver is credited in
 			if pk.onB {
@@ -1233,7 +1307,9 @@ func (e *pegEnv) ibc(p *pegPair, a vn.Account) {
 				q = e.pairOfKind(kVoucher)
 				q.coinSupply.Add(q.coinSupply, pk.x)
 			} else {
-				return nil // the voucher of an ERC20-origin denom is not a registered pair
+				// the voucher of an ERC20-origin denom is not a registered pair
+				pk.p.vch[pk.to] = new(big.Int).Add(e.get(pk.p.vch, pk.to), pk.x)
+				return nil
 			}
 			if q == nil {
 				return nil
@@ -1247,8 +1323,20 @@ func (e *pegEnv) ibc(p *pegPair, a vn.Account) {
 		if res.Code == 0 && !ackOK(ack) {
 			e.r.Count("ibc_error_acks_written", 1)
 		}
-	case k < 9 && len(recvd) > 0: // the acknowledgement comes back
-		pk := recvd[e.rng.Intn(len(recvd))]
+		if pk.ret {
+			e.pairDeletion(pk.p, res.Code == 0)
+			if res.Code == 0 {
+				e.r.Count("erc20_origin_denoms_received_back_home", 1)
+				if e.malicious(pk.p) {
+					e.r.Count("malicious_erc20_origin_denoms_received_back_home", 1)
+				}
+			}
+		}
+	}
+}
+
+func (e *pegEnv) ibcAck(pk *pegPacket) {
+	{
 		isErr := !ackOK(pk.ack)
 		e.logOp("%s: IBC acknowledgement of packet %d (error=%v)", pk.p.kind, pk.pkt.Sequence, isErr)
 		res := e.lb.Ack(pk.pkt, pk.ack)
@@ -1267,17 +1355,11 @@ func (e *pegEnv) ibc(p *pegPair, a vn.Account) {
 			return e.refund(pk)
 		})
 		e.pairDeletion(pk.p, res.Code == 0)
-	default: // a packet that was never delivered times out
-		var cands []*pegPacket
-		for _, pk := range pend {
-			if pk.timeout && uint64(n.Time.UnixNano()) >= pk.pkt.TimeoutTimestamp {
-				cands = append(cands, pk)
-			}
-		}
-		if len(cands) == 0 {
-			return
-		}
-		pk := cands[e.rng.Intn(len(cands))]
+	}
+}
+
+func (e *pegEnv) ibcTimeout(pk *pegPacket) {
+	{
 		e.logOp("%s: IBC timeout of packet %d (%s back to %s)", pk.p.kind, pk.pkt.Sequence, pk.x, e.names[pk.from])
 		res := e.lb.Timeout(pk.pkt)
 		e.lastLog = res.Log
@@ -1286,6 +1368,95 @@ func (e *pegEnv) ibc(p *pegPair, a vn.Account) {
 		}
 		e.settle(pk.p, "ibc-timeout-refund", res.Code == 0, func() error { return e.refund(pk) })
 		e.pairDeletion(pk.p, res.Code == 0)
+	}
+}
+
+// roundTrip advances the journey of an ERC20-origin pair's coins out over channel end A and back
+// home from end B by one stage (the furthest stage that is possible), malicious tokens first.
+func (e *pegEnv) roundTrip() bool {
+	var cands []*pegPair
+	for _, q := range e.pairs {
+		if q.vdenom != "" && !q.broken {
+			cands = append(cands, q)
+		}
+	}
+	e.rng.Shuffle(len(cands), func(i, j int) { cands[i], cands[j] = cands[j], cands[i] })
+	sort.SliceStable(cands, func(i, j int) bool { return e.malicious(cands[i]) && !e.malicious(cands[j]) })
+	stage := func(q *pegPair, ret, received bool) *pegPacket {
+		for _, pk := range e.flight {
+			if pk.p == q && !pk.done && pk.ret == ret && pk.received == received {
+				return pk
+			}
+		}
+		return nil
+	}
+	for _, q := range cands {
+		if pk := stage(q, true, false); pk != nil {
+			e.ibcRecv(pk)
+			return true
+		}
+		if anyPositive(q.vch) {
+			e.ibcReturn(q)
+			return true
+		}
+		if pk := stage(q, false, false); pk != nil {
+			e.ibcRecv(pk)
+			return true
+		}
+		if pk := stage(q, false, true); pk != nil && e.rng.Intn(2) == 0 {
+			e.ibcAck(pk)
+			return true
+		}
+		for _, acc := range e.n.Accounts[:6] {
+			if e.get(q.coin, acc.Eth).Sign() > 0 {
+				e.ibcSend(q)
+				return true
+			}
+		}
+	}
+	return false
+}
+
+func anyPositive(m map[common.Address]*big.Int) bool {
+	for _, v := range m {
+		if v.Sign() > 0 {
+			return true
+		}
+	}
+	return false
+}
+
+// ibcReturn sends the voucher an ERC20-origin pair's coin became on end B back towards end A.
+func (e *pegEnv) ibcReturn(p *pegPair) {
+	n := e.n
+	a := e.holder(p.vch)
+	x := e.amount(e.get(p.vch, a.Eth))
+	to := e.acc()
+	pk := &pegPacket{p: p, from: a.Eth, to: to.Eth, x: x, ret: true}
+	recvStr := to.Addr.String()
+	if e.rng.Intn(8) == 0 {
+		recvStr, pk.badRecv = "not-an-address", true
+	}
+	th, ts := clienttypes.NewHeight(1, 10_000_000), uint64(0)
+	if e.rng.Intn(4) == 0 {
+		th, ts, pk.timeout = clienttypes.ZeroHeight(), uint64(n.Time.Add(3*time.Second).UnixNano()), true
+	}
+	e.logOp("%s: IBC MsgTransfer of its voucher %s %s -> %s on %s (timeout=%v)", p.kind, x, e.names[a.Eth], recvStr, e.lb.B, pk.timeout)
+	res := e.cosmos(a, transfertypes.NewMsgTransfer("transfer", e.lb.B, sdk.NewCoin(p.vdenom, sdkmath.NewIntFromBigInt(x)), a.Addr.String(), recvStr, th, ts, ""))
+	pkt, sent := vn.PacketFromEvents(res.Events)
+	e.settle(p, "ibc-send-voucher-of-erc20-origin-denom-home", res.Code == 0 && sent, func() error {
+		if x.Sign() <= 0 {
+			return opErr("amount not positive")
+		}
+		if e.get(p.vch, a.Eth).Cmp(x) < 0 {
+			return opErr("voucher balance too small")
+		}
+		p.vch[a.Eth] = new(big.Int).Sub(p.vch[a.Eth], x)
+		return nil
+	})
+	if res.Code == 0 && sent {
+		pk.pkt = pkt
+		e.flight = append(e.flight, pk)
 	}
 }
 
